@@ -60,10 +60,55 @@ func condMentionsErrNotNil(e ast.Expr) bool {
 	return found
 }
 
-// "func#k" for every `if … err != nil { … }` of the file whose body does not end in return / continue / break / panic:
-// the places where an error is handled locally instead of being propagated
+// the call whose error an `if` statement looks at: the statement's own init (`if err := f(); …`) or the statement before it
+func errSource(fset *token.FileSet, list []ast.Stmt, i int) string {
+	is := list[i].(*ast.IfStmt)
+	callName := func(n ast.Node) string {
+		name := ""
+		ast.Inspect(n, func(x ast.Node) bool {
+			if c, ok := x.(*ast.CallExpr); ok && name == "" {
+				name = nodeStr(fset, c.Fun)
+			}
+			return name == ""
+		})
+		return name
+	}
+	if is.Init != nil {
+		if n := callName(is.Init); n != "" {
+			return n
+		}
+	}
+	if n := callName(is.Cond); n != "" && !strings.HasPrefix(n, "errors.") {
+		return n
+	}
+	for k := i - 1; k >= 0 && k >= i-2; k-- {
+		if n := callName(list[k]); n != "" {
+			return n
+		}
+	}
+	return "?"
+}
+
+// every statement list of a function body, recursively
+func stmtLists(body *ast.BlockStmt, f func(list []ast.Stmt)) {
+	ast.Inspect(body, func(x ast.Node) bool {
+		switch b := x.(type) {
+		case *ast.BlockStmt:
+			f(b.List)
+		case *ast.CaseClause:
+			f(b.Body)
+		case *ast.CommClause:
+			f(b.Body)
+		}
+		return true
+	})
+}
+
+// "func:call" for every `if … err != nil { … }` of the file whose body does not end in return / continue / break / panic:
+// the places where an error is handled locally instead of being propagated (named by the call that failed, so that
+// unrelated edits do not renumber them)
 func handledLocally(repo, file string) ([]string, error) {
-	_, af, err := parseOne(repo, file)
+	fset, af, err := parseOne(repo, file)
 	if err != nil {
 		return nil, err
 	}
@@ -73,25 +118,22 @@ func handledLocally(repo, file string) ([]string, error) {
 		if !ok || fd.Body == nil {
 			continue
 		}
-		k := 0
-		ast.Inspect(fd.Body, func(x ast.Node) bool {
-			if is, ok := x.(*ast.IfStmt); ok && condMentionsErrNotNil(is.Cond) {
-				k++
-				if !endsInExit(is.Body) {
-					out = append(out, fmt.Sprintf("%s#%d", fd.Name.Name, k))
+		stmtLists(fd.Body, func(list []ast.Stmt) {
+			for i, st := range list {
+				if is, ok := st.(*ast.IfStmt); ok && condMentionsErrNotNil(is.Cond) && !endsInExit(is.Body) {
+					out = append(out, fd.Name.Name+":"+errSource(fset, list, i))
 				}
 			}
-			return true
 		})
 	}
 	sort.Strings(out)
 	return out, nil
 }
 
-// "func#k" for every `if` whose condition mentions an error value (err != nil, errors.Is(err, …), …) and whose body
+// "func:call" for every `if` whose condition mentions an error value (err != nil, errors.Is(err, …), …) and whose body
 // returns with a nil error: the places where a failure is turned into success
 func errToNil(repo, file string) ([]string, error) {
-	_, af, err := parseOne(repo, file)
+	fset, af, err := parseOne(repo, file)
 	if err != nil {
 		return nil, err
 	}
@@ -111,26 +153,24 @@ func errToNil(repo, file string) ([]string, error) {
 		if !ok || fd.Body == nil || fd.Type.Results == nil {
 			continue
 		}
-		// only functions whose last result is an error
 		rs := fd.Type.Results.List
 		if id, ok := rs[len(rs)-1].Type.(*ast.Ident); !ok || id.Name != "error" {
 			continue
 		}
-		k := 0
-		ast.Inspect(fd.Body, func(x ast.Node) bool {
-			is, ok := x.(*ast.IfStmt)
-			if !ok || !mentionsErr(is.Cond) {
-				return true
-			}
-			k++
-			for _, st := range is.Body.List {
-				if rt, ok := st.(*ast.ReturnStmt); ok && len(rt.Results) > 0 {
-					if id, ok := rt.Results[len(rt.Results)-1].(*ast.Ident); ok && id.Name == "nil" {
-						out = append(out, fmt.Sprintf("%s#%d", fd.Name.Name, k))
+		stmtLists(fd.Body, func(list []ast.Stmt) {
+			for i, st := range list {
+				is, ok := st.(*ast.IfStmt)
+				if !ok || !mentionsErr(is.Cond) {
+					continue
+				}
+				for _, b := range is.Body.List {
+					if rt, ok := b.(*ast.ReturnStmt); ok && len(rt.Results) > 0 {
+						if id, ok := rt.Results[len(rt.Results)-1].(*ast.Ident); ok && id.Name == "nil" {
+							out = append(out, fd.Name.Name+":"+errSource(fset, list, i))
+						}
 					}
 				}
 			}
-			return true
 		})
 	}
 	sort.Strings(out)
@@ -277,6 +317,13 @@ func syncFacts(repo string, w *strings.Builder) error {
 					resets = append(resets, h.s)
 				}
 			}
+		}
+		// the flag's name is irrelevant: only that it is ONE flag, set before the first statement and cleared after Commit
+		if id := strings.TrimSpace(guard); id != "" && !strings.ContainsAny(id, " !=.()") {
+			for k := range resets {
+				resets[k] = strings.ReplaceAll(resets[k], id, "FLAG")
+			}
+			guard = "FLAG"
 		}
 		fmt.Fprintf(w, "/-- %s ProcessBlock: condition under which the deferred function rolls the transaction back -/\ndef rollbackGuard_%s : String := %q\n", f.file, f.name, guard)
 		fmt.Fprintf(w, "/-- … and the assignments to that flag together with the Commit call, in source order -/\ndef rollbackFlagFlow_%s : List String := %s\n", f.name, leanStrList(resets))
